@@ -195,6 +195,14 @@ def tcp_round(port, stream, cut, how, slow_handler=0.0):
             common.with_deadline(proto.disable, 15.0)
             obs["disable_seconds"] = round(time.monotonic() - t0, 2)
             obs["not_connected_after_close"] = proto.connection_state.current.value == 0
+            # a well-behaved peer: it reads what the endpoint still sent (Separate.req) up to the end of the stream, then closes -
+            # so the endpoint, which closed first, keeps its side of the connection in TIME_WAIT while it starts listening again
+            sock.settimeout(5)
+            try:
+                while sock.recv(4096):
+                    pass
+            except OSError:
+                pass
             sock.close()
             proto.enable()
         # NOT CONNECTED is reported before the disconnect handling has cleared the buffer and restarted the listener: give it time
@@ -425,7 +433,7 @@ def disable_while_connect_succeeds_round():
 def queue_case(rnd, sizes, packet, writes):
     """one direct call of HsmsProtocol._process_send_queue (no thread is running): blocks of the given byte sizes are queued, the
     connection's send_data answers as scripted; returns the Coq literal: packet counts, the answers, how each block ended"""
-    from secsgem.common.block_send_info import BlockSendInfo, BlockSendResult
+    from secsgem.common.block_send_info import BlockSendInfo
     rig = protorig.HsmsRig(active=False, inert=True)
     try:
         proto = rig.proto
@@ -439,17 +447,22 @@ def queue_case(rnd, sizes, packet, writes):
 
         rig.conn.send_data = scripted
         infos = [BlockSendInfo(bytes(rnd.randrange(256) for _ in range(n))) for n in sizes]
-        for info in infos:
+        resolutions = [[] for _ in infos]       # every call of resolve(): a waiting sender goes on at the FIRST one
+        for k, info in enumerate(infos):
+            inner = info.resolve
+            info.resolve = (lambda value, k=k, inner=inner: (resolutions[k].append(bool(value)), inner(value))[1])
             proto._send_queue.put(info)
         common.with_deadline(proto._process_send_queue, 10.0)
         results = []
-        for info in infos:
-            results.append("None" if not info._result_trigger.is_set() else ("(Some true)" if info._result == BlockSendResult.SENT_OK else "(Some false)"))
+        for k in range(len(infos)):
+            # what the sender waiting for this block is told: the first resolution
+            results.append("None" if not resolutions[k] else ("(Some true)" if resolutions[k][0] else "(Some false)"))
         counts = [-(-n // packet) for n in sizes]
     finally:
         rig.stop()
     return ("{| q_blocks := [" + ";".join(f"{c}%nat" for c in counts) + "]; q_writes := [" + ";".join("true" if w else "false" for w in writes)
-            + "]; q_results := [" + ";".join(results) + "] |}"), {"sizes": sizes, "packet": packet, "writes": writes, "results": results, "left_in_queue": len(infos) - sum(1 for r in results if r != "None")}
+            + "]; q_results := [" + ";".join(results) + "] |}"), {"sizes": sizes, "packet": packet, "writes": writes, "results": results, "resolve_calls": resolutions,
+                                                                 "left_in_queue": len(infos) - sum(1 for r in results if r != "None")}
 
 
 def evaluate_queue(lits):
@@ -677,6 +690,8 @@ def run(tier, replay=None):
         if r is not None:
             qlits.append(r[0])
             qraws.append(r[1])
+            if any(len(calls) > 1 for calls in r[1]["resolve_calls"]) and not any("queueonce" in v for v in report.violations):
+                report.violation({"kind": "counterexample", "what": "a queued block was resolved more than once: the sender was told a result before the block's last packet had been written", **r[1]}, True, tag="queueonce")
     qparsed, qtext = evaluate_queue(qlits) if qlits else ((([], 0, 0)), "")
     queue_model_bad = []
     if qparsed is None:
